@@ -528,6 +528,11 @@ def op_setitem(rng, inp, malformed=False, via_series=False, force_multi=False, f
         k = rng.randint(2 if (force_multi and n >= 2) else 0, min(n, 4))
         pos = rng.sample(range(n), k)
         ix = [p - n if rng.random() < 0.4 else p for p in pos]   # distinct targets, mixed signs
+        if k >= 2 and not malformed and rng.random() < 0.25:
+            # keys whose RAW values increase while their positions do not: negatives first (late rows), then small positives
+            lo = sorted(rng.sample(range(n), k))
+            split = rng.randint(1, k - 1)
+            ix = [p - n for p in lo[split:]] + lo[:split]
         if malformed and ix and rng.random() < 0.5:
             ix[rng.randrange(len(ix))] = rng.choice([n, -n - 1])
         key = np.array(ix, dtype=np.int64)
